@@ -56,3 +56,31 @@ def failed_attempts(ro, addr=None, level=None):
     for mk in msgs:
         outs.append(B.merge(ro, mk()))
     return outs
+
+
+def resend_stories(ro, only=None):
+    """Pre-history: every story (or the one with ID ``only``) is re-sent by a roStorySend carrying its present
+    content.  The stories are then the ones StorySend builds (converted from the <roStorySend> element: the roID
+    comes first, the body children are spliced in) - same IDs, same items, same order."""
+    import copy
+    rc = B.rc_of(ro)
+    for st in list(rc.findall('story')):
+        sid = st.find('storyID').text
+        if only is not None and not (sid is only or sid == only):
+            continue
+        slug = st.find('storySlug')
+        pre, body = [], []
+        for c in st:
+            if c.tag in ('storyID', 'storySlug'):
+                continue
+            c2 = copy.deepcopy(c)
+            if c.tag == 'mosExternalMetadata':
+                pre.append(c2)
+            else:
+                if c2.tag == 'item':
+                    c2.tag = 'storyItem'
+                body.append(c2)
+        out = B.merge(ro, M.story_send(sid, body=body, slug=slug.text if slug is not None else None, pre=pre, msg_id='0'))
+        if out.raised:
+            raise RuntimeError('pre-history roStorySend failed: %r' % (out.exc,))
+    return ro
